@@ -5,6 +5,8 @@ import SkgVerif.Model.Binning
 import SkgVerif.Model.SumModels
 import SkgVerif.Model.Kriging
 import SkgVerif.Model.CrossVal
+import SkgVerif.Model.Fit
+import SkgVerif.Gen.Tables
 import SkgVerif.Gen.ModelsExec
 import SkgVerif.Gen.STModelsExec
 /-!
@@ -192,6 +194,37 @@ def handleC17 : List String → Option String
       let i ← i.trimAscii.toString.toNat?
       let xs ← parseRats xs
       some s!"ok|{fmtList fmtRat (deleteAt xs i)}"
+  | _ => none
+
+
+def fmtOptList (l : Option (List Rat)) : String :=
+  match l with
+  | none => "none"
+  | some xs => fmtList fmtRat xs
+
+def handleC04 : List String → Option String
+  | ["views", kind, un, cof] => do
+      let k ← match kind.trimAscii.toString with
+        | "plain" => some Kind.plain | "shaped" => some Kind.shaped | _ => none
+      let un := un.trimAscii.toString == "1"
+      let cof ← parseRats cof
+      let d := describeOf k un cof
+      some s!"ok|{fmtRat d.range} {fmtRat d.sill} {fmtOptRat d.shape} {fmtRat d.nugget}|{fmtList fmtRat (parametersOf d)}|{fmtList fmtRat (rebuildCof d)}|{fmtOptList (callArgs k cof)}|{fmtOptList (callArgs k (rebuildCof d))}|{if layoutOK k un cof then 1 else 0}"
+  | _ => none
+
+def handleC05 : List String → Option String
+  | ["filter", x, y, sg] => do
+      let x ← parseRats x
+      let y ← parseOptRats y
+      let sg ← if sg.trimAscii.toString == "none" then some none else (parseRats sg).map some
+      let r := nanFilter3 x y sg
+      some s!"ok|{fmtList fmtRat r.1}|{fmtList fmtRat r.2.1}|{fmtOptList r.2.2}"
+  | ["bounds", names, un, mx, my] => do
+      let un := un.trimAscii.toString == "1"
+      let mx ← parseRat mx.trimAscii.toString
+      let my ← parseRat my.trimAscii.toString
+      let toks := boundsFor Gen.fitBoundsTable (tokens names) un
+      some s!"ok|{fmtList fmtRat (toks.map (evalBTok mx my))}"
   | _ => none
 
 end Skg
